@@ -54,11 +54,27 @@ fn parse_outer_header(data: &[u8]) -> Result<KDBX3Header, DatabaseOpenError> {
         //   entry_buffer: [u8; entry_length]       // the entry buffer
         // )
 
-        let entry_type = data[pos];
-        let entry_length: usize = LittleEndian::read_u16(&data[pos + 1..(pos + 3)]) as usize;
-        let entry_buffer = &data[(pos + 3)..(pos + 3 + entry_length)];
+        // a file that ends inside a header entry has no complete header
+        let truncated = || DatabaseIntegrityError::IncompleteOuterHeader {
+            missing_field: "End of header".into(),
+        };
+        let entry_type = *data.get(pos).ok_or_else(truncated)?;
+        let entry_length: usize =
+            LittleEndian::read_u16(data.get(pos + 1..(pos + 3)).ok_or_else(truncated)?) as usize;
+        let entry_buffer = data
+            .get((pos + 3)..(pos + 3 + entry_length))
+            .ok_or_else(truncated)?;
 
         pos += 3 + entry_length;
+
+        // an entry shorter than the fixed-width value it holds is missing that value
+        let fixed = |width: usize, missing_field: &str| {
+            entry_buffer
+                .get(0..width)
+                .ok_or_else(|| DatabaseIntegrityError::IncompleteOuterHeader {
+                    missing_field: missing_field.into(),
+                })
+        };
 
         match entry_type {
             // END - finished parsing header
@@ -80,7 +96,7 @@ fn parse_outer_header(data: &[u8]) -> Result<KDBX3Header, DatabaseOpenError> {
             // COMPRESSIONFLAGS - first byte determines compression of payload
             3 => {
                 compression = Some(
-                    CompressionConfig::try_from(LittleEndian::read_u32(&entry_buffer))
+                    CompressionConfig::try_from(LittleEndian::read_u32(fixed(4, "Compression ID")?))
                         .map_err(|e| DatabaseIntegrityError::from(e))?,
                 );
             }
@@ -92,7 +108,9 @@ fn parse_outer_header(data: &[u8]) -> Result<KDBX3Header, DatabaseOpenError> {
             5 => transform_seed = Some(entry_buffer.to_vec()),
 
             // TRANSFORMROUNDS - Number of rounds used in derivation of transformed key
-            6 => transform_rounds = Some(LittleEndian::read_u64(entry_buffer)),
+            6 => {
+                transform_rounds = Some(LittleEndian::read_u64(fixed(8, "Number of transformation rounds")?))
+            }
 
             // ENCRYPTIONIV - Initialization Vector for decrypting the payload
             7 => outer_iv = Some(entry_buffer.to_vec()),
@@ -107,7 +125,7 @@ fn parse_outer_header(data: &[u8]) -> Result<KDBX3Header, DatabaseOpenError> {
             //                       to use for decrypting the inner protected values
             10 => {
                 inner_cipher = Some(
-                    InnerCipherConfig::try_from(LittleEndian::read_u32(entry_buffer))
+                    InnerCipherConfig::try_from(LittleEndian::read_u32(fixed(4, "Inner cipher ID")?))
                         .map_err(|e| DatabaseIntegrityError::from(e))?,
                 );
             }
@@ -231,7 +249,7 @@ pub(crate) fn decrypt_kdbx3(
         .decrypt(payload_encrypted)?;
 
     // Check if we decrypted correctly
-    if &payload[0..header.stream_start.len()] != header.stream_start.as_slice() {
+    if payload.get(0..header.stream_start.len()) != Some(header.stream_start.as_slice()) {
         return Err(DatabaseKeyError::IncorrectKey.into());
     }
 
@@ -252,15 +270,20 @@ pub(crate) fn decrypt_kdbx3(
         // )
 
         // let block_id = LittleEndian::read_u32(&payload[pos..(pos + 4)]);
-        let block_hash = &payload[(pos + 4)..(pos + 36)];
-        let block_size = LittleEndian::read_u32(&payload[(pos + 36)..(pos + 40)]) as usize;
+        // a payload that ends inside a block (or before the final empty block) cannot be verified
+        let truncated = || BlockStreamError::BlockHashMismatch { block_index };
+        let block_hash = payload.get((pos + 4)..(pos + 36)).ok_or_else(truncated)?;
+        let block_size =
+            LittleEndian::read_u32(payload.get((pos + 36)..(pos + 40)).ok_or_else(truncated)?) as usize;
 
         // A block with size 0 means we have hit EOF
         if block_size == 0 {
             break;
         }
 
-        let block_buffer_compressed = &payload[(pos + 40)..(pos + 40 + block_size)];
+        let block_buffer_compressed = payload
+            .get((pos + 40)..(pos + 40 + block_size))
+            .ok_or_else(truncated)?;
 
         // Test block hash
         let block_hash_check = calculate_sha256(&[&block_buffer_compressed])?;
